@@ -106,6 +106,19 @@ Print Assumptions C02_table.
 Print Assumptions C02_views_project.
 Print Assumptions C02_types_preserved.
 
+(* the known finding D1 as a theorem about the faithful model: with a timestamp
+   leaf whose seconds are non-zero the table read back is NOT the specification
+   table (the decoder multiplies the seconds by 1000) -- the class excluded above *)
+Theorem C02_timestamp_refuted :
+  exists docs nows,
+    let deflate := (fun p : bytes => 1%N :: p) in
+    let inflate := (fun z : bytes => match z with b :: p => if (b =? 1)%N then Some p else None | [] => None end) in
+    inputs_ok docs nows /\
+    map chunk_table (fst (read_chunks inflate None (emitted (snd (fst (emit deflate KBase 3 docs nows))))))
+      <> [doc_table (hd [] docs) docs].
+Proof. exact c02_timestamp_refuted. Qed.
+Print Assumptions C02_timestamp_refuted.
+
 (* non-vacuity: two samples of a depth-4 document with sibling sub-documents
    (a.b.s1, a.b.s2), an array of documents, a non-metric leaf and a timestamp with
    zero seconds satisfy every hypothesis above; its keys and table are as expected *)
